@@ -71,7 +71,11 @@ def run(ctx):
             continue
         c = rename_case(base, m)
         # keep only cases where case variants really coexist
-        allnames = {x for d in c["dss"].values() for x, _ in d["shape"].ids + d["shape"].ms} | set(c["dss"]) | set(re.findall(r"[A-Za-z_][A-Za-z_0-9]*", c["script"]))
+        # only the datasets the script really reads count (an unused input with case-variant components proves nothing about this script)
+        used = {n_: d for n_, d in c["dss"].items() if re.search(rf"\b{re.escape(n_)}\b", c["script"])}
+        c["dss"] = used
+        c["structs"], c["dps"] = G.inputs_engine(used)
+        allnames = {x for d in used.values() for x, _ in d["shape"].ids + d["shape"].ms} | set(used) | set(re.findall(r"[A-Za-z_][A-Za-z_0-9]*", c["script"]))
         if len({x.lower() for x in allnames}) == len(allnames):
             continue
         cases.append(c)
